@@ -517,6 +517,7 @@ func (c *client) makeOutChan(ctx context.Context, ftyp reflect.Type, valOut int)
 			}
 
 			if ctx.Err() != nil {
+				vhook("sink.dropped", nil, "s", ch.Pointer())
 				log.Errorf("got rpc message with cancelled context: %s", ctx.Err())
 				return
 			}
